@@ -7,6 +7,7 @@ import ast
 import z3
 
 from .values import (
+    is_enum, enum_eq, enum_less,
     Sym, Struct, PList, PDict, PSet, Inst, SymSeq, SymSet, SymMap, FuncRef,
     ClassRef, ExtRef, BoundMethod, LambdaVal, PyFunc, Unsupported, term, wrap,
     zand, zor, znot, zeq, zite,
@@ -283,6 +284,8 @@ class Interp:
             return False
         if isinstance(v, (int, float, str, tuple)):
             return bool(v)
+        if is_enum(v):
+            return zor(*[v.t == c for c, d in enumerate(v.enum) if d])
         if isinstance(v, Sym):
             t = v.t
             if z3.is_bool(t):
@@ -316,6 +319,12 @@ class Interp:
 
     def values_eq(self, a, b):
         """python bool or z3 Bool: a == b (Python semantics on the subset)."""
+        if is_enum(a) or is_enum(b):
+            if (is_enum(a) or isinstance(a, str)) and (is_enum(b) or isinstance(b, str)):
+                return enum_eq(a, b)
+            if isinstance(a, Sym) and isinstance(b, Sym):
+                return zeq(a, b)
+            return False
         if isinstance(a, Sym) or isinstance(b, Sym):
             if isinstance(a, (Sym, int, str, bool, float)) and \
                     isinstance(b, (Sym, int, str, bool, float)):
@@ -361,6 +370,8 @@ class Interp:
                     z3.ForAll([k], z3.Implies(z3.And(k >= 0, k < term(a.len)), term(body))))
 
     def values_is(self, a, b):
+        if is_enum(a) or is_enum(b):
+            return self.values_eq(a, b)
         if isinstance(a, Sym) and isinstance(b, Sym):
             if a.t.sort() == b.t.sort():
                 return a.t == b.t
@@ -405,6 +416,8 @@ class Interp:
             return a < b if strict else a <= b
         if isinstance(a, str) and isinstance(b, str):
             return a < b if strict else a <= b
+        if (is_enum(a) or isinstance(a, str)) and (is_enum(b) or isinstance(b, str)):
+            return enum_less(a, b, strict)
         ta, tb = term(a), term(b)
         if z3.is_string(ta) or z3.is_string(tb):
             # code-point lexicographic order == z3 str.< on the strings used
@@ -427,6 +440,8 @@ class Interp:
         if isinstance(container, str):
             if isinstance(x, str):
                 return x in container
+            if is_enum(x):
+                return zor(*[x.t == c for c, d in enumerate(x.enum) if d in container])
             return z3.Contains(z3.StringVal(container), term(x))
         if isinstance(container, Sym) and z3.is_string(container.t):
             return z3.Contains(container.t, term(x))
@@ -495,6 +510,8 @@ class Interp:
         return d
 
     def hashable(self, k):
+        if is_enum(k):
+            return self.vc.concretize(k)
         if isinstance(k, (int, str, bool, float, type(None), ClassRef)):
             return k
         if isinstance(k, tuple):
@@ -518,6 +535,8 @@ class Interp:
         return res
 
     def to_str(self, val):
+        if is_enum(val):
+            return self.vc.concretize(val)
         if isinstance(val, str):
             return val
         if isinstance(val, bool) or val is None:
